@@ -192,6 +192,11 @@ func mustReject(f []node, o optList) (bool, string) {
 			return true, "extension-option-unknown-to-route"
 		}
 	}
+	// the Cosmos envelope of an Ethereum transaction is not signed: nothing may ride in it, not even
+	// as a non-critical option (no option is known to the Ethereum route but its own critical marker)
+	if r == "eth" && len(o.nonCrit) > 0 {
+		return true, "non-critical-option-on-eth-route"
+	}
 	if r != "eth" && (fa.ethTop || fa.ethUnderExec) {
 		return true, "eth-msg-outside-eth-route"
 	}
